@@ -46,6 +46,8 @@ func c16Payloads() []payload {
 		{"xp_cmdshell", "call", []string{"XP_CMDSHELL('dir')", "xp_cmdshell('dir')"}, security.PatternOutOfBand, security.SeverityCritical},
 		{"union-null", "union", []string{"UNION SELECT NULL, NULL", "union select null, null", "UNION ALL SELECT NULL, NULL, NULL", "UNION\nSELECT\tNULL ,NULL"}, security.PatternUnionBased, ""},
 		{"union-infoschema", "union", []string{"UNION SELECT table_name FROM information_schema.tables", "union select table_name from information_schema.tables", "UNION  ALL\nSELECT table_name FROM INFORMATION_SCHEMA.TABLES", "UNION SELECT table_name\nFROM information_schema.tables", "UNION SELECT table_name\tFROM\tinformation_schema.tables"}, security.PatternUnionBased, security.SeverityCritical},
+		{"union-null-infoschema", "union", []string{"UNION SELECT NULL, NULL FROM information_schema.tables", "union select null, null from information_schema.tables", "UNION ALL SELECT NULL, NULL, NULL FROM information_schema.columns", "UNION SELECT NULL, table_name, NULL FROM information_schema.tables"}, security.PatternUnionBased, security.SeverityCritical},
+		{"union-null-pgcatalog", "union", []string{"UNION SELECT NULL, NULL FROM pg_catalog.pg_tables", "union all select null, null, null from pg_catalog.pg_tables"}, security.PatternUnionBased, security.SeverityCritical},
 		{"union-pgcatalog", "union", []string{"UNION SELECT name FROM pg_catalog.pg_tables", "union select name from pg_catalog.pg_tables", "UNION ALL SELECT name FROM PG_CATALOG.pg_tables"}, security.PatternUnionBased, security.SeverityCritical},
 	}
 }
@@ -463,6 +465,11 @@ func c16Child(a *ChildArgs) {
 			}
 		}
 	}
+	// the same payload written more than once, spelled identically: every occurrence is reported (the findings of a
+	// text holding two occurrences are at least those of the two texts holding one each)
+	if a.Shard == 1%a.NShards {
+		c16Repeated(a)
+	}
 	// multi-statement scripts: counts must stay consistent
 	if a.Shard == 0 {
 		for _, sql := range []string{"SELECT a FROM t WHERE 1=1; SELECT b FROM u WHERE b = 7", "SELECT a FROM t WHERE 1=1; SELECT SLEEP(5); DELETE FROM t WHERE 'a'='a'", "SELECT a FROM t; SELECT b FROM u WHERE x=x; UPDATE t SET a = LOAD_FILE('f') WHERE 1=1"} {
@@ -521,4 +528,81 @@ func c16Child(a *ChildArgs) {
 		}
 	}
 	_ = mon.Hash
+}
+
+// c16Repeated: occurrences of one payload do not hide each other.
+func c16Repeated(a *ChildArgs) {
+	type combo struct {
+		name  string
+		whole string
+		parts []string
+	}
+	for _, pl := range c16Payloads() {
+		for ti, tx := range pl.Texts {
+			var cs []combo
+			switch pl.Kind {
+			case "cond":
+				one := "SELECT a FROM t WHERE b = 2 OR " + tx
+				cs = append(cs, combo{"script-2", one + ";\n" + one, []string{one, one}},
+					combo{"script-2-update", one + "; UPDATE t SET a = 1 WHERE b = 2 OR " + tx, []string{one, "UPDATE t SET a = 1 WHERE b = 2 OR " + tx}},
+					combo{"outer-and-in-subquery", "SELECT a FROM t WHERE c IN (SELECT c FROM u WHERE d = 4 OR " + tx + ") AND (b = 2 OR " + tx + ")",
+						[]string{"SELECT a FROM t WHERE c IN (SELECT c FROM u WHERE d = 4 OR " + tx + ") AND (b = 2 OR e = 5)", "SELECT a FROM t WHERE c IN (SELECT c FROM u WHERE d = 4 OR e = 5) AND (b = 2 OR " + tx + ")"}},
+					combo{"where-and-having", "SELECT a FROM t WHERE b = 2 OR " + tx + " GROUP BY a HAVING a > 1 OR " + tx,
+						[]string{"SELECT a FROM t WHERE b = 2 OR " + tx + " GROUP BY a HAVING a > 1 OR e = 5", "SELECT a FROM t WHERE b = 2 OR e = 5 GROUP BY a HAVING a > 1 OR " + tx}})
+				var many, parts []string
+				for i := 0; i < 40; i++ {
+					many = append(many, one)
+					parts = append(parts, one)
+				}
+				cs = append(cs, combo{"script-40", strings.Join(many, ";\n"), parts})
+			case "call":
+				one := "SELECT a FROM t WHERE a = " + tx
+				cs = append(cs, combo{"script-2", one + ";\n" + one, []string{one, one}},
+					combo{"outer-and-in-subquery", "SELECT a FROM t WHERE c IN (SELECT c FROM u WHERE d = " + tx + ") AND b = " + tx,
+						[]string{"SELECT a FROM t WHERE c IN (SELECT c FROM u WHERE d = " + tx + ") AND b = 7", "SELECT a FROM t WHERE c IN (SELECT c FROM u WHERE d = 7) AND b = " + tx}},
+					combo{"select-list-twice", "SELECT " + tx + ", b, " + tx + " FROM t", []string{"SELECT " + tx + ", b, 7 FROM t", "SELECT 7, b, " + tx + " FROM t"}})
+			case "union":
+				one := "SELECT a, b FROM t WHERE a = 1 " + tx
+				cs = append(cs, combo{"script-2", one + ";\n" + one, []string{one, one}},
+					combo{"outer-and-in-cte", "WITH c AS (SELECT a, b FROM u " + tx + ") SELECT a, b FROM c " + tx,
+						[]string{"WITH c AS (SELECT a, b FROM u " + tx + ") SELECT a, b FROM c", "WITH c AS (SELECT a, b FROM u) SELECT a, b FROM c " + tx}})
+			}
+			for _, c := range cs {
+				for _, ep := range c16EPs() {
+					if ep.Name == "Scanner.ScanSQL" {
+						continue // reports a pattern once per text, without a location: occurrences are not its unit
+					}
+					whole, _, err := ep.F(c.whole, security.SeverityLow)
+					if err != nil {
+						continue
+					}
+					sum := pairSet{}
+					bad := false
+					for _, p := range c.parts {
+						ps, _, err := ep.F(p, security.SeverityLow)
+						if err != nil {
+							bad = true
+							break
+						}
+						for k, v := range ps {
+							sum[k] += v
+						}
+					}
+					if bad {
+						continue
+					}
+					a.Rec.Count("evaluations", 1)
+					a.Rec.Distinct("cases", fmt.Sprintf("repeated/%s/%d/%s/%s", pl.Name, ti, c.name, ep.Name))
+					for _, k := range sum.keys() {
+						if whole[k] < sum[k] {
+							a.Rec.Viol("C16/"+ep.Name+"/repeated/"+pl.Name+"/"+c.name+"/"+k, "reported equally wherever it occurs in that or any nested statement",
+								fmt.Sprintf("%s: %d findings %s for the text with every occurrence, %d for its occurrences scanned one at a time", ep.Name, whole[k], k, sum[k]),
+								map[string]interface{}{"sql": c.whole, "parts": c.parts, "whole": whole, "sum_of_parts": sum})
+							break
+						}
+					}
+				}
+			}
+		}
+	}
 }
